@@ -19,6 +19,10 @@ def catalogue():
         if p.returncode != 0:
             raise vlib.Machinery("harness catalogue failed: " + p.stderr[:500])
         _catalogue = json.loads(p.stdout)
+        for e in _catalogue:
+            for k in ("params", "default", "inputs"):
+                if e.get(k) is None:
+                    e[k] = []
     return _catalogue
 
 
